@@ -3,7 +3,7 @@
    Part 2: the footprint table: operations on distinct instances do not conflict when the
    structural facts are those of the repaired tree; with the pre-repair facts they do, and
    an explicit interleaving corrupts a result. *)
-From Verif Require Import Base Params Indep.
+From Verif Require Import Base Params Indep IndepFacts.
 Open Scope Z_scope.
 
 Section MachineProofs.
@@ -429,7 +429,8 @@ Proof.
   { intros H. right. apply in_opt_cells in H. destruct H as [i [H1 H2]]. exists i. split; [apply insts_coll; exact H1 | exact H2]. }
   assert (K : In c (if od_cold d then reg_cells d else []) -> (exists k t, c = CReg k t) \/ (exists i, In i (insts d) /\ c = CInst i)).
   { destruct (od_cold d); [exact R | intros []]. }
-  destruct (od_fam d); cbn [reads writes app]; rewrite ?in_app_iff; cbn [In]; rewrite ?in_app_iff; intuition.
+  destruct (f_collator_shares_depth F); destruct (od_fam d); cbn [reads writes app]; rewrite ?in_app_iff; cbn [In]; rewrite ?in_app_iff;
+    intuition; try match goal with H : In _ [] |- _ => destruct H end.
 Qed.
 
 (* when the classes exist already, it writes only cells of its own instances *)
@@ -444,7 +445,8 @@ Proof.
   { intros H. apply in_opt_cells in H. destruct H as [i [H1 H2]]. exists i. split; [apply insts_aux; exact H1 | exact H2]. }
   assert (C : In c (opt_cells (od_coll d)) -> exists i, In i (insts d) /\ c = CInst i).
   { intros H. apply in_opt_cells in H. destruct H as [i [H1 H2]]. exists i. split; [apply insts_coll; exact H1 | exact H2]. }
-  destruct (od_fam d); cbn [reads writes app]; rewrite ?in_app_iff; cbn [In]; rewrite ?in_app_iff; intuition; match goal with H : In _ [] |- _ => destruct H end.
+  destruct (f_collator_shares_depth F); destruct (od_fam d); cbn [reads writes app]; rewrite ?in_app_iff; cbn [In]; rewrite ?in_app_iff;
+    intuition; match goal with H : In _ [] |- _ => destruct H end.
 Qed.
 
 Lemma disjoint_insts_spec a b :
@@ -636,17 +638,59 @@ Example repaired_pairs_clean :
   racy_conflict repaired_facts par_a par_b = false /\ conflict repaired_facts srt_a srt_b = false.
 Proof. repeat split; reflexivity. Qed.
 
-(* KNOWN FINDING kept in the table: Set.And/Or/Sans/Xor give the result the collator INSTANCE
-   of their first operand; searching the operand and the result from two goroutines are
-   operations on two distinct collections that write one collator's depth counter.  The
-   descriptor of such an operation names the collator it uses, so the instance sets overlap
-   and the theorem above does not (and must not) apply. *)
+(* D29 (repaired): Set.And/Or/Sans/Xor give the result the collator INSTANCE of their first
+   operand.  While a collator kept its depth counter in the instance, searching the operand
+   and the result from two goroutines were operations on two distinct collections that both
+   WROTE that one collator.  The descriptor of such an operation names the collator it uses,
+   so the instance sets overlap and [distinct_instances_disjoint] does not apply; with the
+   pre-repair facts the table says "conflict". *)
 Definition set_a : opdesc := OD FSearch KSet VColl 0 101 None (Some 103%nat) false.
 Definition set_r : opdesc := OD FSearch KSet VColl 0 201 None (Some 103%nat) false.
-Theorem derived_set_shares_collator_refuted :
+Definition rank_a : opdesc := OD FRank KSlice VAgent 2 101 (Some 102%nat) None false.
+Definition rank_b : opdesc := OD FRank KSlice VAgent 2 201 (Some 102%nat) None false.
+Theorem derived_set_shares_collator_refuted_prefix :
   od_recv set_a <> od_recv set_r /\ disjoint_insts set_a set_r = false /\
-  racy_conflict current_facts set_a set_r = true.
-Proof. split; [discriminate|]. split; reflexivity. Qed.
+  racy_conflict prefix_facts set_a set_r = true /\
+  racy_conflict prefix_facts rank_a rank_b = true.
+Proof. split; [discriminate|]. repeat split; reflexivity. Qed.
+
+(* After the repair a public call of a collator works on a per-call copy: using a collator
+   (searching a Set, ranking or comparing with a collator agent) writes nothing.  Searches and
+   rankings therefore never conflict with one another, whatever collections AND collators the
+   goroutines share: in particular the operand and the result of a set operation. *)
+Definition read_only_fam (d : opdesc) : Prop := od_fam d = FSearch \/ od_fam d = FRank.
+
+Lemma read_only_writes F d :
+  is_repaired F -> f_collator_shares_depth F = false -> read_only_fam d -> od_cold d = false ->
+  writes (fp_of F d) = [].
+Proof.
+  intros HF Hs [Hf|Hf] Hc; unfold fp_of; rewrite (shared_cells_repaired F d HF), Hs, Hc, Hf; reflexivity.
+Qed.
+
+Theorem searches_and_rankings_share_freely F a b :
+  is_repaired F -> f_collator_shares_depth F = false ->
+  read_only_fam a -> read_only_fam b -> od_cold a = false -> od_cold b = false ->
+  conflict F a b = false.
+Proof.
+  intros HF Hs Ra Rb Ca Cb. unfold conflict, conflicts.
+  rewrite (read_only_writes F a HF Hs Ra Ca), (read_only_writes F b HF Hs Rb Cb). reflexivity.
+Qed.
+
+(* the obligation tying this to the sources: CompareValues/RankValues of collator.go do not
+   touch the receiver's depth counter (fact regenerated by tools/genparams.py) *)
+Lemma current_collator_reentrant : f_collator_shares_depth current_facts = false.
+Proof. vm_compute. reflexivity. Qed.
+
+Theorem searches_and_rankings_share_freely_current a b :
+  read_only_fam a -> read_only_fam b -> od_cold a = false -> od_cold b = false ->
+  conflict current_facts a b = false.
+Proof. apply searches_and_rankings_share_freely; [exact current_facts_repaired | exact current_collator_reentrant]. Qed.
+
+Example derived_set_clean_current :
+  read_only_fam set_a /\ read_only_fam set_r /\ read_only_fam rank_a /\
+  conflict current_facts set_a set_r = false /\ conflict current_facts rank_a rank_b = false /\
+  reads (fp_of current_facts set_a) <> [].
+Proof. repeat split; try (left; reflexivity); try (right; reflexivity); try reflexivity; discriminate. Qed.
 
 (* non-vacuity of [distinct_instances_disjoint]: a pair satisfying its hypotheses, and the
    footprints involved are not empty *)
@@ -682,3 +726,16 @@ Proof.
   repeat (constructor; [repeat constructor; apply (threads_conflict_false cell cell_eqb cell_eqb_spec); reflexivity |]).
   constructor.
 Qed.
+
+(* ---------- the inventory of package-level state ---------- *)
+
+(* The package-level variables of the library are exactly the expected ones: eleven registries
+   (each with its mutex, each found locked), class singletons that are never assigned, one
+   constant map, the test hook.  A new package-level variable - the way hidden state shared by
+   all instances gets into the library - changes Params.package_vars and breaks this proof. *)
+Theorem package_state_inventory :
+  Params.package_vars = expected_package_vars /\
+  forallb (fun p => benign_kind (snd p)) Params.package_vars = true /\
+  forallb registry_is_locked Params.package_vars = true /\
+  length (filter is_registry Params.package_vars) = length Params.registry_locked.
+Proof. repeat split; vm_compute; reflexivity. Qed.
